@@ -139,3 +139,25 @@ def unit_norm(prog, run):
                    "no division of a vector by its own largest-magnitude component found", witness="missing", file=f, node=fi.node)
         for node, ok, why in sites:
             run.ob("R-unit-norm", fi.qual, "normalisation", ok, why, witness=why, file=f, node=node)
+
+
+S, FD, PL, G = "functions.ssi", "functions.fdd", "functions.plscf", "functions.gen"
+MUTANTS = [
+    ("C08-m01 fs where dt is meant in the SSI pole map", S, "ac2mp", "np.log(lam_d) * (1 / dt)", "np.log(lam_d) * dt"),
+    ("C08-m02 FDD shape normalised by the largest magnitude of ANOTHER vector", FD, "FDD_mpe", "phi_FDD / phi_FDD[np.argmax(np.abs(phi_FDD))]", "phi_FDD / phi_FDD[np.argmax(np.abs(Svec[1, :, idxfin]))]"),
+    ("C08-m03 abs dropped in the normalisation", S, "ac2mp", "phi[np.argmax(abs(phi[:, ii])), ii]", "phi[np.argmax(phi[:, ii]), ii]"),
+    ("C08-m04 absolute threshold on the singular values", FD, "FDD_mpe", "idx1 = np.argmin(np.abs(diffS1S2 - maxDiffS1S2))", "idx1 = np.argmin(np.abs(diffS1S2 - maxDiffS1S2)) if Sval[0, 0, idxlim[0]] > 1e-06 else 0"),
+    ("C08-m06 frequency grid of the correlogram in samples", FD, "SD_est", "np.arange(0, Sy.shape[2]) * (1 / dt / nxseg)", "np.arange(0, Sy.shape[2]) * (1 / nxseg)"),
+    ("C08-m07 pLSCF basis function with omega in Hz*s^2", PL, "pLSCF", "fs = 1 / dt", "fs = dt"),
+    ("C08-m08 EFDD lag axis from fs", FD, "EFDD_mpe", "tlag = 1 / df", "tlag = df"),
+    ("C08-m10 multi-setup SSI passes fs as sampling interval", "algorithms.ssi", "SSIdat_MS.run", "ssi.SSI_poles(Obs, A, C, ordmax, self.dt, step=step, calc_unc=False)", "ssi.SSI_poles(Obs, A, C, ordmax, self.fs, step=step, calc_unc=False)"),
+    ("C08-m11 normalisation by the maximum magnitude (not the component)", PL, "ac2mp_poly", "phi[:, ii] / phi[np.argmax(abs(phi[:, ii])), ii]", "phi[:, ii] / np.max(abs(phi[:, ii]))"),
+    ("C08-m12 split by mask loses the listed reference order", G, "pre_multisetup", "ref = y[:, ref_id]", "ref = y[:, np.isin(np.arange(n_sens), ref_id)]"),
+    ("C08-m13 stability test on the absolute frequency difference", G, "SC_apply", "cond1 = np.abs(f_n[i] - f_n1[idx]) / f_n[i]", "cond1 = np.abs(f_n[i] - f_n1[idx])"),
+]
+REWRITES = [
+    ("rename:C08-r01", S, "ac2mp", "lam_c", "lam_cont"),
+    ("C08-r02 np.abs in the normalisation", S, "ac2mp", "phi[np.argmax(abs(phi[:, ii])), ii]", "phi[np.argmax(np.abs(phi[:, ii])), ii]"),
+    ("C08-r03 temporary for the pivot index", FD, "FDD_mpe", "phi_FDDn = phi_FDD / phi_FDD[np.argmax(np.abs(phi_FDD))]", "kmax = np.argmax(np.abs(phi_FDD))\nphi_FDDn = phi_FDD / phi_FDD[kmax]"),
+    ("C08-r04 sampling interval passed by keyword", "algorithms.ssi", "SSIdat_MS.run", "ssi.SSI_poles(Obs, A, C, ordmax, self.dt, step=step, calc_unc=False)", "ssi.SSI_poles(Obs, A, C, ordmax, dt=self.dt, step=step, calc_unc=False)"),
+]
